@@ -556,11 +556,17 @@ func crossCheck(results []*harnessResult, seed int64, tier int) (total, disagree
 	if len(all) > limit {
 		all = all[:limit]
 	}
-	for _, kind := range []string{"z3-new", "cvc5"} {
+	kinds := []string{"z3-new", "cvc5"}
+	if len(all) > 0 && all[0].Decider == "cvc5-int" {
+		// queries that needed the integer encoding are not re-run through bit-blasting back ends
+		// (tens of seconds each); the second opinion is cvc5's other integer encoding
+		kinds = []string{"cvc5-bitwise"}
+	}
+	for _, kind := range kinds {
 		bin, args := solverArgs(kind, 20000)
 		var sb strings.Builder
-		if kind == "cvc5" {
-			sb.WriteString("(set-logic QF_BV)\n")
+		if strings.HasPrefix(kind, "cvc5") {
+			sb.WriteString("(set-logic ALL)\n")
 		}
 		for _, x := range all {
 			sb.WriteString("(push 1)\n")
